@@ -7,7 +7,12 @@ import Ptn.C19.StarFork
 import Ptn.C19.Binary
 import Ptn.C19.Const
 import Ptn.C19.ParentLeg
-/-! Property theorems for C19. Only property theorems and non-vacuity examples live here. -/
+import Ptn.C19.ValueRec
+import Ptn.C19.ValueChain
+import Ptn.C19.ValuePad
+/-! Property theorems for C19. Only property theorems and non-vacuity examples live here.  The leg-level
+theorems are core Lean; the value-level theorems at the end (`from_tensor_value`, `mps_chain_value`,
+`pad_bond_value`) rest on `Ptn/Common/Einsum*.lean` (single Mathlib modules). -/
 namespace Ptn.C19
 
 /-! ### Grid neighbour pairs (`_find_nn_pairs`) -/
@@ -717,5 +722,151 @@ theorem ftps_structure_partial (d width height bd : Nat) (st : Fork)
 
 example : (starConst 3 2 2).isSome = true := by decide
 example : (ftps 3 2 3 2).isSome = true := by decide
+
+/-! ## Value level: what the constructed networks EVALUATE to (`Value*.lean` over `Ptn/Common/Einsum*.lean`) -/
+
+open Ptn.Ein
+
+/-- **`TTNO.from_tensor` returns a network that contracts to the input tensor (value level).**  For every
+reference tree with distinct identifiers (any shape, any child order), every leg assignment, every commutative
+semiring, all leg and bond dimensions and every decomposition mode: let `out` be the node tensors of ANY run of
+`_from_tensor_rec` (`FromTensorRun`: the recursion of `from_tensor_legs` with values attached, started on the dense
+tensor `A` whose axes are labelled `ax k` = axis `k` of the tensor handed in; every pass of the `for child_id`
+loop replaces the node's current tensor by SOME pair `Q`, `R` that has the axes `splitChild` computes and
+contracts over the new bond to the tensor that was split - the contract of `tensor_qr_decomposition`,
+`tensor_svd` + `diag(S)·Vh`, `truncated_tensor_svd` without truncation; no other property of the factorisation
+is used).  Then
+* `out` has exactly one tensor per node of `fromTensor t ld` (dict order), each reading only the legs
+  `from_tensor_legs` lists for that node: `(bond to parent, bonds to children, leg_dict[id], half + leg_dict[id])`;
+* for every binding record that is, up to order, the set of tree edges (parent end joined to child end), the flat
+  network of these tensors evaluates to the input tensor `A`, as a function of the open legs. -/
+theorem from_tensor_value {R : Type} [CommSemiring R] (t : RTree) (ld : Nat → Nat) (hnd : t.ids.Nodup)
+    (dim : VLeg → Nat) (A : Asg VLeg → R) (out : List (Asg VLeg → R))
+    (hA : DependsOn (· ∈ (qrShape (fun i => [ld i, t.size + ld i]) t []).map VLeg.ax) A)
+    (hrun : FromTensorRun dim t ld A out) :
+    List.Forall₂ LocalTo (fromTensor t ld) out ∧
+    ∀ binds : List (VLeg × VLeg), binds.Perm (t.edges.map bondPair) →
+      ∀ σ, netValue dim binds out σ = A σ :=
+  fromTensor_value t ld hnd dim A out hA hrun
+
+/-- a rank-2 operator on two sites and an exact factorisation of it over a bond of dimension 2 -/
+def demoT : RTree := .node 0 [.node 1 []]
+def demoQ : Asg VLeg → Int := fun σ =>
+  if σ (.pEnd 0 1) = 0 then (σ (.ax 0) : Int) + 1 else (σ (.ax 2) : Int) + 2 * σ (.ax 0)
+def demoR : Asg VLeg → Int := fun σ =>
+  if σ (.cEnd 0 1) = 0 then (σ (.ax 1) : Int) + 3 * σ (.ax 3) else (σ (.ax 3) : Int) + 1
+def demoA : Asg VLeg → Int := fun σ =>
+  ((σ (.ax 0) : Int) + 1) * ((σ (.ax 1) : Int) + 3 * σ (.ax 3)) +
+  ((σ (.ax 2) : Int) + 2 * σ (.ax 0)) * ((σ (.ax 3) : Int) + 1)
+
+/-- the hypotheses of `from_tensor_value` are satisfiable by a run with a non-trivial factorisation -/
+example : demoT.ids.Nodup ∧
+    DependsOn (· ∈ (qrShape (fun i => [id i, demoT.size + id i]) demoT []).map VLeg.ax) demoA ∧
+    FromTensorRun (fun _ => 2) demoT id demoA [demoQ, demoR] := by
+  refine ⟨by decide, ?_, ?_⟩
+  · have e : (qrShape (fun i => [id i, demoT.size + id i]) demoT []).map VLeg.ax =
+        [.ax 0, .ax 2, .ax 1, .ax 3] := by decide
+    rw [e]
+    intro σ τ h
+    simp only [demoA]
+    rw [h (.ax 0) (by simp), h (.ax 1) (by simp), h (.ax 2) (by simp), h (.ax 3) (by simp)]
+  · unfold FromTensorRun demoT
+    simp only [RecRun, KidsRun]
+    refine ⟨demoQ, [demoR], ⟨demoQ, demoR, [demoR], [], ?_, ?_, ?_, ⟨demoR, [], ⟨rfl, rfl⟩, rfl⟩, ⟨rfl, rfl⟩, rfl⟩, rfl⟩
+    · intro τ
+      simp [sumPairs, sumR, bondPair, List.range_succ, upd, demoQ, demoR, demoA, RTree.id]
+    · have e : (splitChild 0 ((qrShape (fun i => [id i, (RTree.node 0 [RTree.node 1 []]).size + id i])
+          (RTree.node 0 [RTree.node 1 []]) []).map Leg.ax) (if (none : Option Nat).isSome = true then 1 else 0)
+          (RTree.node 1 [])).1.map (vleg 0) = [.pEnd 0 1, .ax 0, .ax 2] := by decide
+      rw [e]
+      intro σ τ h
+      simp only [demoQ]
+      rw [h (.pEnd 0 1) (by simp), h (.ax 0) (by simp), h (.ax 2) (by simp)]
+    · have e : (splitChild 0 ((qrShape (fun i => [id i, (RTree.node 0 [RTree.node 1 []]).size + id i])
+          (RTree.node 0 [RTree.node 1 []]) []).map Leg.ax) (if (none : Option Nat).isSome = true then 1 else 0)
+          (RTree.node 1 [])).2.map (vleg (RTree.node 1 []).id) = [.cEnd 0 1, .ax 1, .ax 3] := by decide
+      rw [e]
+      intro σ τ h
+      simp only [demoR]
+      rw [h (.cEnd 0 1) (by simp), h (.ax 1) (by simp), h (.ax 3) (by simp)]
+
+/-- **`MatrixProductTree.from_tensor_list` builds the specified tensor chain, whatever the root (value level).**
+For every chain length `n ≥ 2`, every root `r < n` (both code paths), any number of open legs per site, every
+commutative semiring, all dimensions (the two ends of a bond equal, as NumPy demands) and ALL input tensors
+`T i` (functions of the index list in the input's axis order `[left, right, open…]`): the construction completes
+with a state `st` such that
+* the node tensor the library holds for site `i` - the input array transposed by the leg permutation the model
+  predicts (`modelLeaf`: `N[j₀, j₁, …] = T_i[idx]`, `idx[legs[k]] = j_k`, its `k`-th leg labelled by the input axis
+  that sits there) - is, as a labelled tensor, the input tensor of the site (`siteLeaf`) in every rooting: a
+  different root only permutes axes;
+* the binding record of the network (every non-root node in dict order: its parent's leg
+  `neighbour_index(node)` joined to its own leg `0`) joins, for every site `i ≠ r`, the `left` axis of the right
+  neighbour to the `right` axis of the left neighbour, parent end first (`recPair`);
+* the network evaluates to `Σ_{bonds} Π_i T_i[left_i, right_i, open_i…]`, the sum over one common index per chain
+  bond `(right axis of i, left axis of i + 1)` of the product of all input tensors - the same function of the open
+  legs for every root `r`. -/
+theorem mps_chain_value {R : Type} [CommSemiring R] (n r : Nat) (p : Nat → Nat) (hn : 2 ≤ n) (hr : r < n)
+    (dim : CLeg → Nat) (hd : ∀ i, i + 1 < n → dim (i, Axis.right) = dim (i + 1, Axis.left))
+    (T : Nat → List Nat → R) :
+    ∃ st, fromTensorList n r p = some st ∧
+      (∀ x ∈ st.nodes, modelLeaf n T x = siteLeaf n p T x.id) ∧
+      stRecord n st = (chainOrder n r).tail.map (recPair r) ∧
+      ∀ σ, netValue dim (stRecord n st) (st.nodes.map (modelLeaf n T)) σ =
+        sumPairs dim (chainRecord n)
+          (fun τ => prodL ((List.range n).map fun i =>
+            T i ((List.range (nlegsIn n p i)).map fun a => τ (i, axisName n i a)))) σ := by
+  have hids : idsAt r 0 (n - 1) = chainOrder n r := by
+    unfold idsAt chainOrder
+    rw [List.range_eq_range' (n := r), List.reverse_range']
+    simp
+  refine ⟨stateAt n r p 0 (n - 1), fromTensorList_closed n r p hn hr, ?_, ?_, ?_⟩
+  · intro x hx
+    simp only [stateAt, List.mem_map] at hx
+    obtain ⟨i, _, rfl⟩ := hx
+    exact modelLeaf_final n r p T i hr
+  · rw [stRecord_final n r p hn hr, hids]
+  · intro σ
+    rw [chain_value n r p hr hn dim hd T σ]
+    simp only [netValue, List.map_map]
+    rfl
+
+example : (2 : Nat) ≤ 4 ∧ 2 < 4 ∧
+    ∀ i, i + 1 < 4 → (fun _ : CLeg => 3) (i, Axis.right) = (fun _ : CLeg => 3) (i + 1, Axis.left) :=
+  ⟨by decide, by decide, fun _ _ => rfl⟩
+
+example : stRecord 4 ⟨[⟨2, none, [1, 3], [0, 1, 2]⟩, ⟨1, some 2, [0], [1, 0, 2]⟩, ⟨0, some 1, [], [0, 1]⟩,
+      ⟨3, some 2, [], [0, 1]⟩], 2, [0, 1], [3]⟩ =
+    [((2, .left), (1, .right)), ((1, .left), (0, .right)), ((2, .right), (3, .left))] := by decide
+
+/-- **Zero padding of bonds changes nothing.**  A network whose bonds are enlarged from the dimensions `dim` to
+`dim'` (any number of bonds at once) has the same value, provided that wherever the common index of an enlarged
+bond lies in the added part of its range some leaf tensor vanishes (the padded entries of ONE of the two tensors
+on the bond are zero; the other side may hold anything): the sum over the larger ranges equals the sum over the
+smaller ones.  (`constant_product_state(bond_dimensions=…)` pads with `np.pad` at the end of every bond.) -/
+theorem pad_bond_value {L : Type} [DecidableEq L] {R : Type} [CommSemiring R] (dim dim' : L → Nat)
+    (ps : List (L × L)) (leaves : List (Asg L → R)) (hnd : (Expr.pairLegs ps).Nodup)
+    (hle : ∀ p ∈ ps, dim p.1 ≤ dim' p.1)
+    (hz : ∀ p ∈ ps, ∀ τ : Asg L, dim p.1 ≤ τ p.1 → τ p.1 < dim' p.1 → τ p.2 = τ p.1 → ∃ g ∈ leaves, g τ = 0)
+    (σ : Asg L) : netValue dim' ps leaves σ = netValue dim ps leaves σ := by
+  unfold netValue
+  apply sumPairs_pad dim dim' ps hnd hle
+  rintro τ ⟨p, hp, h1, h2, h3⟩
+  obtain ⟨g, hg, hg0⟩ := hz p hp τ h1 h2 h3
+  apply prodL_eq_zero
+  exact List.mem_map.2 ⟨g, hg, hg0⟩
+
+/-- one bond padded from 2 to 3; the left tensor is zero in the padding, the right one is not -/
+example : (Expr.pairLegs [((0 : Nat), (1 : Nat))]).Nodup ∧
+    (∀ p ∈ [((0 : Nat), (1 : Nat))], (fun _ : Nat => 2) p.1 ≤ (fun l : Nat => if l ≤ 1 then 3 else 2) p.1) ∧
+    (∀ p ∈ [((0 : Nat), (1 : Nat))], ∀ τ : Asg Nat, (fun _ : Nat => 2) p.1 ≤ τ p.1 →
+      τ p.1 < (fun l : Nat => if l ≤ 1 then 3 else 2) p.1 → τ p.2 = τ p.1 →
+      ∃ g ∈ [fun τ : Asg Nat => if τ 0 < 2 then (τ 0 : Int) + 1 + τ 2 else 0, fun τ => (τ 1 : Int) + 5], g τ = 0) := by
+  refine ⟨by decide, by simp, ?_⟩
+  intro p hp τ h1 _ _
+  simp only [List.mem_singleton] at hp
+  subst hp
+  refine ⟨_, List.mem_cons_self, ?_⟩
+  have : ¬ τ 0 < 2 := by simpa using h1
+  simp [this]
 
 end Ptn.C19
